@@ -146,6 +146,29 @@ func init() {
 			"base a\n\nimport rbind /dev /dev\n\nexport symlink /var/tmp/x $$file_export\n"} {
 			emit(Case{"op": "layerfile.rwr", "text": hx(t), "stream": "fixed"})
 		}
+		// lines at and around bufio.Scanner's 64 KiB token limit (a comment, an import with a
+		// long path, a line of blanks), with LF or CRLF, last in the file with and without final
+		// newline, content before and after: the reader must report what it cannot hold
+		for _, ln := range []int{65534, 65535, 65536, 65537, 70000} {
+			for _, kind := range []string{"comment", "import"} {
+				long := ""
+				switch kind {
+				case "comment":
+					long = "# " + strings.Repeat("x", ln-2)
+				case "import":
+					// made long by blanks between the fields: the model's field splitter is quadratic
+					// in the length of one field
+					long = "import bind /src" + strings.Repeat(" ", ln-len("import bind /src/m")) + "/m"
+				default:
+					long = strings.Repeat(" ", ln)
+				}
+				before := "base b0\nimport proc /proc /proc\n"
+				after := "import rbind /dev /dev\nexport symlink /var/tmp/x $$file_export\n"
+				for _, t := range []string{before + long + "\n" + after, before + long + "\r\n" + after, before + long} {
+					emit(Case{"op": "layerfile.rwr", "text": hx(t), "stream": "longline"})
+				}
+			}
+		}
 		for i := 0; i < n; i++ {
 			t := c11Text(g)
 			emit(Case{"op": "layerfile.rwr", "text": hx(t), "stream": "structured"})
